@@ -65,3 +65,51 @@ void h_dict_builder_add(void) {
   }
   CQV_CANARY("returns");
 }
+
+#ifdef CQV_DICT_INJ
+/* C11 dictionary encoding, injectivity of the value -> index map (what decode(encode(v)) == v needs from the
+ * builder): looking up a value yields the index of an existing entry only if that entry has the SAME length and
+ * the same bytes; any other value gets a fresh index.  Bounded: one existing entry in the chain, lengths <= 4.
+ * num_buckets == 1 puts every value into the one chain (dict_builder_add works for any table size; the hash then
+ * does not matter), memcmp is the exact definition below (lengths <= 4). */
+int memcmp(const void *a, const void *b, size_t n) {
+  __CPROVER_precondition(__CPROVER_r_ok(a, n) && __CPROVER_r_ok(b, n), "memcmp ranges readable");
+  const uint8_t *p = a, *q = b;
+  for (size_t i = 0; i < 4; i++) if (i < n && p[i] != q[i]) return p[i] < q[i] ? -1 : 1;
+  return 0;
+}
+void h_dict_builder_inj(void) {
+  dict_builder_t b;
+  b.num_buckets = 1;
+  b.buckets = malloc(sizeof(dict_entry_t *));
+  b.count = 1; b.indices_capacity = 4; b.indices_count = 1;
+  b.indices = malloc(4 * sizeof(uint32_t));
+  b.is_variable_length = 1;
+  __CPROVER_assume(b.buckets != NULL && b.indices != NULL);
+  b.indices[0] = 0;
+  dict_entry_t *e = malloc(sizeof(*e));
+  __CPROVER_assume(e != NULL);
+  size_t se = nondet_size_t(), sv = nondet_size_t();
+  __CPROVER_assume(se <= 4 && sv <= 4);
+  uint8_t de[4], dv[4];
+  e->size = se; e->data = malloc(se); e->index = 0; e->next = NULL;
+  uint8_t *value = malloc(sv);
+  __CPROVER_assume(e->data != NULL && value != NULL);
+  for (int i = 0; i < 4; i++) { if ((size_t)i < se) e->data[i] = de[i]; if ((size_t)i < sv) value[i] = dv[i]; }
+  b.buckets[0] = e;
+  _Bool same = se == sv;
+  for (int i = 0; i < 4; i++) if ((size_t)i < se && (size_t)i < sv && de[i] != dv[i]) same = 0;
+  cqv_calls = 0; cqv_watch = -1; cqv_elem = -1;
+  carquet_status_t st = dict_builder_add(&b, value, sv);
+  if (st == CARQUET_OK) {
+    __CPROVER_assert(b.indices_count == 2, "one index appended");
+    __CPROVER_assert((b.indices[1] == 0) == same, "C11: a value gets the index of an existing entry iff that entry has the same length and the same bytes");
+    __CPROVER_assert(same ? b.count == 1 : (b.count == 2 && b.indices[1] == 1), "C11: any other value becomes a new dictionary entry with the next index");
+    if (same) CQV_CANARY("inj: duplicate found"); else CQV_CANARY("inj: new entry");
+    if (!same && sv < se) CQV_CANARY("inj: value is shorter than the existing entry");
+  } else {
+    CQV_CANARY("inj: add can fail");
+  }
+  CQV_CANARY("inj returns");
+}
+#endif
